@@ -4,6 +4,24 @@ import json
 
 CHECKS = {
  # id: (level, technique, level text, level note, design ref)
+ "C03": ("exploration", "reference-record monitor on decoded callback replies (etree + expat double extraction, wall-clock bracket)",
+         "Hundreds to thousands of stored-request x user x configuration cases are driven through the real login callback; every field of each decoded Success response is compared with a reference record the harness computes itself, extracted twice with independent parsers. Sampling, not proof: the input space (all strings) is unbounded.",
+         "Trusts etree/expat parsing, html tokenizer of the harness, and the wall-clock bracket (1 s slack). Strings are drawn from legal XML characters only.", "DESIGN.md §5 C03"),
+ "C04": ("exploration", "independent verifiers (goxmldsig + python expat/exc-c14n/modpow; own HTTP-Redirect verifier) over artefacts emitted by the real handlers",
+         "Every signed artefact the handlers emit in the run (assertions on POST / body / SOAP delivery, redirect query signatures, signed metadata) is verified on its wire bytes by two independent verifiers with the certificate the IdP publishes. Known finding D6 (third-party canonicaliser) is reported as KNOWN-FINDING for inputs with characters that canonical XML must escape.",
+         "Trusts crypto/rsa, hashlib, expat; V1 and V2 jointly. Cases whose signed strings contain & < > CR (text) or & < \" TAB LF CR (attributes) are covered by known finding D6 and cannot reveal other signature defects.", "DESIGN.md §5 C04"),
+ "C05": ("exploration", "signed-set membership monitor over the storage event log (what was persisted vs. what the simulated SPs really signed)",
+         "40 configurations x 18 mutation families of validly signed messages are sent to the real SSO handler; whenever a request is accepted although signing was required or a signature value was present, the persisted content must be exactly something the registered key signed. Rejection is always allowed, so the monitor cannot raise a false alarm on stricter code.",
+         "Trusts the harness's own signer (crypto/rsa, goxmldsig SigningContext) and the event log; R2 is not judged when parameter occurrences in query and body differ.", "DESIGN.md §5 C05"),
+ "C06": ("exploration", "label-by-construction monitor plus independent (expat) re-evaluation of every accepted request",
+         "Conformant requests with 0-2 labelled deviations are sent to the real SSO handler; a labelled deviation must never be accepted, and every accepted request is decoded independently and all necessary conditions are re-evaluated against the call's time bracket.",
+         "Trusts expat, stdlib base64/flate, the time bracket (2 s slack). Leniencies of encoding/xml that still 'decode as an AuthnRequest' (trailing bytes, duplicate attributes) are not judged.", "DESIGN.md §5 C06"),
+ "C07": ("exploration", "conformant-message generator with acceptance monitor (storage log + decoded status)",
+         "Messages a conformant SP can produce (serialisation styles x bindings x signing x encoding styles x KeyInfo layouts x requirements) must be accepted by the real handlers. Known findings D11 and D14 are reported as KNOWN-FINDING for their input classes only.",
+         "The generator defines 'conformant'; it never sends an empty RelayState parameter and uses UTC 'Z' timestamps.", "DESIGN.md §5 C07"),
+ "C08": ("exploration", "outcome monitor over recorded ResponseWriter calls and the storage write log",
+         "Each SSO request (valid, invalid at each step, unanswerable, failing persistence; any consumer-binding mix) must end in exactly one of the two outcomes; persist count, reply shape, number of documents/forms/WriteHeader calls and left-over records are checked.",
+         "Trusts the harness's reply classifier; one request per fresh provider and world.", "DESIGN.md §5 C08"),
  "C20": ("exploration", "reference-interpreter monitor over traces recorded by instrumented closures (exhaustive chain enumeration + random chains)",
          "Every step sequence up to length 4 (quick) / 6 (thorough) over all (step kind, outcome) variants is built with the real checker and evaluated twice; an online monitor compares the recorded closure trace and result with a reference interpreter. Exhaustive on the stated bound, sampled beyond it.",
          "Trusts the reference interpreter (40 lines) and that closures are deterministic; value-read multiplicity is deliberately not judged.", "DESIGN.md §5 C20"),
@@ -43,7 +61,7 @@ def main():
         },
         "engines": [
             {"name": "verifh", "path": "/verif/harness", "serves_properties": sorted(CHECKS), "kind_free_text": "Go harness: simulated Storage with event log / fault plans / delay plans, simulated service providers, reply decoder, independent verifiers; one workload + monitor per property; runs the real handlers built from /repo's working tree in a child process (race-detector build for C15)"},
-            {"name": "pyoracle", "path": "/verif/pyoracle", "serves_properties": [], "kind_free_text": "Python stdlib oracles: expat well-formedness / field extraction and an independent XML-DSig verifier (own exclusive C14N + hashlib + integer modpow)"},
+            {"name": "pyoracle", "path": "/verif/pyoracle", "serves_properties": sorted(set(CHECKS) & {"C03","C04","C06","C11","C12","C18"}), "kind_free_text": "Python stdlib oracles: expat well-formedness / field extraction and an independent XML-DSig verifier (own exclusive C14N + hashlib + integer modpow)"},
         ],
         "checks": checks,
         "not_applicable": na,
